@@ -185,7 +185,13 @@ def run_uncached(repo, gen_dir, seed, rlimit, threads, verbose):
         if msg.startswith('aborting due to'):
             continue
         cls = classify(msg)
-        spans = d.get('spans', [])
+        def outer(sp):
+            # walk macro expansions outwards until the span lies in the generated file
+            n = 0
+            while sp is not None and sp.get('file_name') != os.path.basename(genfile) and sp.get('expansion') and n < 10:
+                sp = sp['expansion'].get('span'); n += 1
+            return sp
+        spans = [x for x in (outer(sp) for sp in d.get('spans', [])) if x is not None]
         prim = next((s for s in spans if s.get('is_primary')), spans[0] if spans else None)
         sec = [s for s in spans if not s.get('is_primary')]
         f = {'class': cls, 'message': msg}
